@@ -258,27 +258,46 @@ func doObjdump(binary, hash string) (string, error) {
 		}
 	}
 
-	f, err = os.Create(dumpFile)
-	if err != nil {
+	// Write the dump to a temporary file and move it into place only when it
+	// is complete, so that an interrupted or failed run never leaves a file
+	// that the next run would take for a valid cache entry.
+	tmpFile := dumpFile + ".tmp"
+	if err = writeObjdump(binary, hash, tmpFile); err != nil {
+		os.Remove(tmpFile)
 		return "", err
 	}
-	defer f.Close()
-
-	out := bufio.NewWriter(f)
-	defer out.Flush()
-
-	if _, err = out.WriteString(hash + "\n"); err != nil {
-		return "", err
-	}
-
-	cmd := exec.Command("go", "tool", "objdump", binary)
-	cmd.Stdout = out
-	if err = cmd.Run(); err != nil {
+	if err = os.Rename(tmpFile, dumpFile); err != nil {
+		os.Remove(tmpFile)
 		return "", err
 	}
 
 	log.Println("objdump written to", dumpFile)
 	return dumpFile, nil
+}
+
+// writeObjdump writes the hash followed by the disassembly of binary to file.
+func writeObjdump(binary, hash, file string) error {
+	f, err := os.Create(file)
+	if err != nil {
+		return err
+	}
+	defer f.Close()
+
+	out := bufio.NewWriter(f)
+	if _, err = out.WriteString(hash + "\n"); err != nil {
+		return err
+	}
+
+	cmd := exec.Command("go", "tool", "objdump", binary)
+	cmd.Stdout = out
+	if err = cmd.Run(); err != nil {
+		return err
+	}
+
+	if err = out.Flush(); err != nil {
+		return err
+	}
+	return f.Sync()
 }
 
 func filterBlacklist(syscalls []string) ([]string, []string) {
